@@ -63,7 +63,6 @@ theorem workflow_tail {free : Nat → Bool} {m : G} {n : Nat} {ops : List Op} {P
     {moves : List Move} {d0 d3 : PD} {out : List Em} {s : St} {d4 d5 : PD}
     (hm : m.WF) (hw : OpsWF n ops) (hP : P.length = n)
     (him : PermN n d0.im) (hfm : PermN n d0.fm)
-    (hnb : ∀ mv ∈ moves, mv.noPamBarrier = true)
     (hm3 : d3.model = m) (him3 : d3.im = d0.im) (hfm3 : d3.fm = d0.fm) (hp3 : d3.placement.Perm P)
     (h4 : routePass free n ops moves d3 = some (s, d4))
     (h5 : applyPlacement s.out d4 = some (out, d5)) :
@@ -79,7 +78,7 @@ theorem workflow_tail {free : Nat → Bool} {m : G} {n : Nat} {ops : List Op} {P
       d5.placement = List.range m.n ∧ d5.model = m) := by
   have hlen3 : d3.placement.length = n := hp3.length_eq.trans hP
   have hm3' : d3.model.WF := hm3 ▸ hm
-  obtain ⟨sg, hcon, hfc, _, hinv, hrem, hd4⟩ := routePass_spec hm3' hw hlen3 hnb h4
+  obtain ⟨sg, hcon, hfc, _, hinv, hrem, hd4⟩ := routePass_spec hm3' hw hlen3 h4
   obtain ⟨hpnd, hplt, hpc, hsn, hsw, hedge⟩ := connectivity_spec hm3' hcon hfc
   obtain ⟨ho, hi5, hf5, hp5, hmo5, _, _, _⟩ := applyPlacement_spec h5
   have hpl4 : d4.placement = d3.placement := by rw [hd4]
@@ -149,7 +148,6 @@ theorem workflow_spec {free : Nat → Bool} {m : G} {n : Nat} {ops : List Op} {P
     {out : List Em} {s : St} {d4 d5 : PD}
     (hm : m.WF) (hw : OpsWF n ops) (hP : P.length = n)
     (him : PermN n d0.im) (hfm : PermN n d0.fm)
-    (hnb : ∀ mv ∈ moves, mv.noPamBarrier = true)
     (h : workflow free m n ops P lay moves d0 = some (out, s, d4, d5)) :
     (d4.placement.Nodup ∧ d4.placement.length = n ∧ (∀ x ∈ d4.placement, x < m.n) ∧
       ConnectedOn m d4.placement ∧ d4.placement.Perm P) ∧
@@ -193,7 +191,7 @@ theorem workflow_spec {free : Nat → Bool} {m : G} {n : Nat} {ops : List Op} {P
             have q3 : d4' = d4 := congrArg (fun x => x.2.2.1) hq
             have q4 : d5' = d5 := congrArg (fun x => x.2.2.2) hq
             subst q1; subst q2; subst q3; subst q4
-            exact workflow_tail (d3 := { d1 with placement := P }) hm hw hP him hfm hnb
+            exact workflow_tail (d3 := { d1 with placement := P }) hm hw hP him hfm
               (by simp [hd1]) (by simp [hd1]) (by simp [hd1]) (List.Perm.refl _) h4 h5
       | some l =>
         simp only at h
@@ -218,7 +216,7 @@ theorem workflow_spec {free : Nat → Bool} {m : G} {n : Nat} {ops : List Op} {P
               have q3 : d4' = d4 := congrArg (fun x => x.2.2.1) hq
               have q4 : d5' = d5 := congrArg (fun x => x.2.2.2) hq
               subst q1; subst q2; subst q3; subst q4
-              exact workflow_tail (d3 := d3) hm hw hP him hfm hnb
+              exact workflow_tail (d3 := d3) hm hw hP him hfm
                 (by rw [he]; simp [hd1]) (by rw [he]; simp [hd1]) (by rw [he]; simp [hd1])
                 hperm h4 h5
 
